@@ -76,7 +76,7 @@ def doc_positions(src):
     prev = atok.tokens[st.first_token.index - 1]
     has = isinstance(st, ast.Expr) and isinstance(st.value, ast.Constant) and isinstance(st.value.value, str)
     return {"indent": prev.string if prev.type == token.INDENT else None, "has": has,
-            "P": blen(src[:prev.startpos]), "S": blen(src[:st.first_token.startpos]), "E": blen(src[:st.first_token.endpos])}
+            "P": blen(src[:prev.startpos]), "S": blen(src[:st.first_token.startpos]), "E": blen(src[:st.last_token.endpos])}     # end of the docstring STATEMENT (several tokens: D36, repaired in /repo)
 
 
 def lambda_positions_source(src):
